@@ -489,6 +489,54 @@ theorem iroot_pow (n d : Nat) (hd : 0 < d) : iroot (n ^ d) d = n :=
   irootGo_pow n d hd _ 0 (Nat.zero_le _) (by
     rw [Nat.zero_add]; exact Nat.le_self_pow (Nat.pos_iff_ne_zero.mp hd) n)
 
+/-- the integer root for every argument: `iroot t d` is the greatest `s` with `s ^ d ≤ t` -/
+theorem irootGo_spec (t d : Nat) : ∀ fuel s, s ^ d ≤ t → t < (s + fuel + 1) ^ d →
+    irootGo t d fuel s ^ d ≤ t ∧ t < (irootGo t d fuel s + 1) ^ d
+  | 0, s, h1, h2 => by simpa [irootGo] using ⟨h1, h2⟩
+  | fuel + 1, s, h1, h2 => by
+    simp only [irootGo]
+    split
+    · rename_i hle
+      exact irootGo_spec t d fuel (s + 1) hle (by
+        have : s + 1 + fuel + 1 = s + (fuel + 1) + 1 := by omega
+        rw [this]; exact h2)
+    · rename_i hgt
+      exact ⟨h1, by omega⟩
+
+theorem iroot_spec (t d : Nat) (hd : 0 < d) : iroot t d ^ d ≤ t ∧ t < (iroot t d + 1) ^ d := by
+  refine irootGo_spec t d t 0 ?_ ?_
+  · rw [Nat.zero_pow hd]; exact Nat.zero_le _
+  · rw [Nat.zero_add]
+    exact Nat.lt_of_lt_of_le (Nat.lt_succ_self t) (Nat.le_self_pow (Nat.pos_iff_ne_zero.mp hd) (t + 1))
+
+theorem sideRound_pow (n d : Nat) (hd : 0 < d) : sideRound (n ^ d) d = n := by
+  have : 2 ^ d * n ^ d = (2 * n) ^ d := (Nat.mul_pow 2 n d).symm
+  simp only [sideRound, this, iroot_pow (2 * n) d hd]
+  omega
+
+/-- `sideRound total d` is the integer nearest to the real `d`-th root of `total`:
+`s - 1/2 ≤ total^(1/d) < s + 1/2`, stated on integers -/
+theorem sideRound_nearest (total d : Nat) (hd : 0 < d) :
+    (2 * sideRound total d - 1) ^ d ≤ 2 ^ d * total ∧ 2 ^ d * total < (2 * sideRound total d + 1) ^ d := by
+  obtain ⟨h1, h2⟩ := iroot_spec (2 ^ d * total) d hd
+  simp only [sideRound]
+  generalize iroot (2 ^ d * total) d = r at h1 h2
+  rcases Nat.mod_two_eq_zero_or_one r with hm | hm
+  · generalize hmm : r / 2 = m
+    have e : (r + 1) / 2 = m := by omega
+    rw [e]
+    constructor
+    · exact Nat.le_trans (Nat.pow_le_pow_left (by omega) d) h1
+    · have : r + 1 = 2 * m + 1 := by omega
+      rwa [this] at h2
+  · generalize hmm : r / 2 = m
+    have e : (r + 1) / 2 = m + 1 := by omega
+    rw [e]
+    constructor
+    · have : 2 * (m + 1) - 1 = r := by omega
+      rw [this]; exact h1
+    · exact Nat.lt_of_lt_of_le h2 (Nat.pow_le_pow_left (by omega) d)
+
 /-! ## places -/
 
 theorem placeOf_not_mem (gridIds : List Nat) (id : Nat) (h : id ∉ gridIds) :
